@@ -134,12 +134,12 @@ FLOORS = {"quick": {"evaluations": 670, "distinct_nontrivial": 590,
                                  "rechunk_plans_with_two_splitting_passes": 120,
                                  "rechunk_plan_cases_with_neighbour_steps": 160},
                     "sets": {"expr_classes": 8}, "max_skipped_fraction": 0.25},
-          "thorough": {"evaluations": 5500, "distinct_nontrivial": 4600,
-                       "counters": {"compared_with_numpy": 5200, "compared_with_classic": 5000, "rewritten_by_optimizer": 2700,
-                                    "compared_stage_optimize": 5200, "compared_stage_lowered-unoptimized": 5200,
-                                    "block_shapes_checked": 5200, "classic_helper_calls": 1,
-                                    "rechunk_requested_chunks_checked": 4000, "rechunk_multi_pass_plans": 1600,
-                                    "rechunk_plans_with_two_splitting_passes": 1200,
+          "thorough": {"evaluations": 7000, "distinct_nontrivial": 6100,
+                       "counters": {"compared_with_numpy": 6500, "compared_with_classic": 6300, "rewritten_by_optimizer": 4000,
+                                    "compared_stage_optimize": 6500, "compared_stage_lowered-unoptimized": 6500,
+                                    "block_shapes_checked": 6500, "classic_helper_calls": 1,
+                                    "rechunk_requested_chunks_checked": 4100, "rechunk_multi_pass_plans": 1650,
+                                    "rechunk_plans_with_two_splitting_passes": 1250,
                                     "rechunk_plan_cases_with_neighbour_steps": 1600},
                        "sets": {"expr_classes": 8}, "max_skipped_fraction": 0.25}}
 EXHAUSTIVE_SPACE = ("all 8x8 (source chunking, target chunking) pairs of a (3,2) array under rechunk->sum(axis=0) and under "
